@@ -48,7 +48,7 @@ def tset(xs) -> str:
 
 def dom(**kw) -> dict:
     base = dict(ALLOWFORCE=AF4, RESOLVES=["off"], STUBMODES=["none"], LAYOUTS=["flat", "chain"], TOPS=TOPS6, KIDSA=K4, KIDSB=K4,
-                TOPFAULTS=F4, KIDFAULTS=F4, EXTFAULTS=["none"], EXTSTYLES=["none"], EXTPRIVATES=[False], EXTKINDS=["missing"], PATHMUTS=["none"], SUBMODS=[True], OBJSPECS=["name"])
+                TOPFAULTS=F4, KIDFAULTS=F4, EXTFAULTS=["none"], EXTSTYLES=["none"], EXTPRIVATES=[False], EXTKINDS=["missing"], PATHMUTS=["none"], SUBMODS=[True], OBJSPECS=["name"], ENTRIES=["load"])
     base.update(kw)
     return base
 
@@ -62,7 +62,7 @@ DOMAINS = {
         "faultkinds": dom(LAYOUTS=["flat"], KIDSA=["py", "so"], KIDSB=["missing"], TOPS=["py", "so", "sofile"]),
         # every module suffix the finder yields: importable compiled (so), foreign compiled (xc), source with a stub file next to it
         # (both), everywhere in both layouts, no faults
-        "kinds": dom(TOPS=["py", "so", "xc", "ns"], KIDSA=["py", "pyi", "both", "so", "xc", "missing"], KIDSB=["pyi", "both", "so", "xc", "missing"],
+        "kinds": dom(TOPS=["py", "xc", "ns"], KIDSA=["py", "pyi", "both", "so", "xc", "missing"], KIDSB=["pyi", "both", "so", "xc", "missing"],
                      TOPFAULTS=["none"], KIDFAULTS=["none"]),
         # module bodies that modify sys.path in place / rebind it, then succeed or fail
         "pathmut": dom(ALLOWFORCE=["a-", "-f"], PATHMUTS=["inplace", "rebind"], TOPS=["py", "so", "sofile"], KIDSA=["py", "so", "missing"],
@@ -70,6 +70,12 @@ DOMAINS = {
         # the other call forms: submodules=False, relative path string, pathlib.Path; source modules with a stub file next to them
         "callforms": dom(SUBMODS=[False, True], OBJSPECS=["name", "relpath", "abspath"], LAYOUTS=["flat"], KIDSA=["both", "so", "missing"], KIDSB=["missing"],
                          TOPFAULTS=["none", "exit"], KIDFAULTS=["none", "raises"]),
+        # object paths ("p.X") and top-level modules only CPython can find (single-file compiled module, package in a zip archive)
+        "dotted": dom(OBJSPECS=["name", "dotted"], LAYOUTS=["flat"], TOPS=["py", "pyi", "so", "ns", "sofile", "zip", "missing"], KIDSA=["so", "missing"],
+                      KIDSB=["missing"], STUBMODES=["none", "find+ext"], TOPFAULTS=["none", "raises"], KIDFAULTS=["none"]),
+        # the second caller of the protocol: load_git on a real repository (options forwarded)
+        "git": dom(ENTRIES=["load_git"], OBJSPECS=["name", "dotted"], LAYOUTS=["flat"], TOPS=["py", "so", "sofile", "missing"],
+                   KIDSA=["py", "so", "xc", "missing"], KIDSB=["missing"], TOPFAULTS=["none", "raises"], KIDFAULTS=["none"]),
         # stubs: in-package __init__.pyi, stubs-only package with / without find_stubs_package
         "stubs": dom(STUBMODES=["inpkg", "ext", "find", "find+ext"], LAYOUTS=["flat"], KIDSA=["py", "so", "missing"], KIDSB=["missing"],
                      TOPFAULTS=["none", "raises"], KIDFAULTS=["none", "missingdep"]),
@@ -87,6 +93,11 @@ DOMAINS = {
         "callforms": dom(SUBMODS=[False, True], OBJSPECS=["name", "relpath", "abspath"], STUBMODES=["none", "inpkg"], LAYOUTS=["flat"],
                          TOPS=["py", "pyi", "so", "xc", "ns", "sofile", "missing"], KIDSA=["both", "py", "so", "missing"], KIDSB=["missing", "so"],
                          TOPFAULTS=["none", "exit"], KIDFAULTS=["none", "raises"]),
+        "dotted": dom(OBJSPECS=["name", "dotted"], STUBMODES=["none", "inpkg", "find+ext"], TOPS=["py", "pyi", "so", "xc", "ns", "sofile", "zip", "missing"],
+                      KIDSA=["py", "so", "missing"], KIDSB=["so", "missing"], KIDFAULTS=["none", "raises"]),
+        "git": dom(ENTRIES=["load_git"], OBJSPECS=["name", "dotted"], RESOLVES=["off", "true"], TOPS=["py", "pyi", "so", "ns", "sofile", "missing"],
+                   KIDSA=["py", "so", "xc", "missing"], KIDSB=["so", "missing"], TOPFAULTS=["none", "raises"], KIDFAULTS=["none", "exit"],
+                   EXTSTYLES=["none", "name"], EXTKINDS=["sofile"], EXTFAULTS=["none"]),
         "siblings": dom(KIDSA=["both", "py", "pyi", "so", "missing"], KIDSB=["both", "so", "missing"], TOPS=["py", "pyi", "ns", "so"],
                         TOPFAULTS=["none", "raises"], KIDFAULTS=["none", "raises", "exit"]),
         "stubs": dom(STUBMODES=["inpkg", "ext", "find", "find+ext"], KIDSA=["py", "pyi", "so", "missing"], KIDSB=["missing", "so"],
@@ -103,7 +114,8 @@ DOMAINS = {
 # seeded defects of the model (LoadProtocol.tla, cfg.bug) = the mutants transcribed; LoadProtocol_bugs.cfg run with -continue
 # must report every one of these invariants violated and must not report CleanHolds
 MODEL_BUGS = {"allowFirst": "CatchAllowFirst", "noReraise": "CatchNoReraise", "noFinally": "CatchNoFinally", "stubsDynamic": "CatchStubsDynamic",
-              "externalInspect": "CatchExternalInspect", "pydInspected": "CatchPydInspected", "guardedRestore": "CatchGuardedRestore"}
+              "externalInspect": "CatchExternalInspect", "pydInspected": "CatchPydInspected", "guardedRestore": "CatchGuardedRestore",
+              "probeOnMiss": "CatchProbeOnMiss", "gitDropsAllow": "CatchGitDropsAllow"}
 
 EVENT_FIELDS = {
     "LoadExtensions": ["touched"], "Load": ["pkg"], "ResolveExternal": ["pkg"], "FindSpec": ["pkg", "res", "stubs", "viastubs"],
@@ -111,14 +123,14 @@ EVENT_FIELDS = {
     "DynImport": ["m"], "DynImportOk": ["m"], "DynImportFail": ["m"], "EnterSysPath": ["replaced"], "TryImport": ["m"], "Import": ["m"],
     "ImportOk": ["m"], "ImportFail": ["m"], "ExitSysPath": ["restored", "by"], "InspectTop": ["m"], "Inspected": ["m"], "InspectFail": ["m"],
     "WrapError": ["m", "frm", "to"], "LoadReturn": ["pkg", "path_ok"], "LoadRaise": ["pkg", "exc", "path_ok"], "Return": ["path_ok"],
-    "Raise": ["exc", "path_ok"],
+    "Raise": ["exc", "path_ok"], "Checkout": [], "Cleanup": ["path_ok"],
 }
 # JVM options (tlc.run passes `env` on): tiny runs are start-up bound -> C1 only; all runs: few GC threads (many JVMs run concurrently)
 JVM_TINY = {"JAVA_TOOL_OPTIONS": "-XX:TieredStopAtLevel=1 -XX:ParallelGCThreads=1 -XX:CICompilerCount=1"}
 JVM_MAIN = {"JAVA_TOOL_OPTIONS": "-XX:ParallelGCThreads=2"}
 ACTIONS = ["LoadExtensions", "LoadMain", "ResolveExternal", "FindSpec", "ChooseAgent", "Visit", "Submodule", "CreateNsParent", "SkipSubmodule", "DynImport",
            "EnterSysPath", "TryImport", "Import", "ImportOk", "ImportFail", "ExitSysPath", "DynImportOk", "DynImportFail", "InspectTop", "Inspected",
-           "InspectFail", "WrapError", "StubPass", "LoadReturn", "LoadRaise", "Return", "Raise"]
+           "InspectFail", "WrapError", "StubPass", "LoadReturn", "LoadMissing", "LoadRaise", "Return", "Raise", "Checkout", "Cleanup"]
 LEGAL_OUTCOMES = ("Return", "ModuleNotFoundError", "ImportError", "LoadingError")
 
 
@@ -147,7 +159,7 @@ def project_events(events: list) -> list:
     out = []
     for e in events:
         name = e["ev"]
-        if name in ("LoadReturn", "LoadRaise", "Return", "Raise"):
+        if name in ("LoadReturn", "LoadRaise", "Return", "Raise", "Cleanup"):
             e = dict(e, path_ok=bool(e.get("path_same") and e.get("path_equal") and e.get("saved") == 0))
         fields = EVENT_FIELDS.get(name)
         if fields is None:
@@ -205,8 +217,8 @@ def clauses(cfg: dict, r: dict) -> list:
             depth -= 1
             if not e["restored"]:
                 bad.append(("exit-restores-path", f"sys_path exit ({e['by']}) did not put the saved sys.path back"))
-        elif e["ev"] in ("LoadReturn", "LoadRaise") and not (e["path_same"] and e["path_equal"] and e["saved"] == 0):
-            bad.append(("path-restored-after-load", f"sys.path not restored when load({e['pkg']}) ended ({e['ev']})"))
+        elif e["ev"] in ("LoadReturn", "LoadRaise", "Cleanup") and not (e["path_same"] and e["path_equal"] and e["saved"] == 0):
+            bad.append(("path-restored-after-load", f"sys.path not restored when load({e.get('pkg', 'p')}) ended ({e['ev']})"))
         elif e["ev"] == "LoadExtensions" and e["touched"]:
             bad.append(("noop-sys-path", "sys_path() without paths rebound sys.path"))
         if depth < 0 or depth > 1:
@@ -214,7 +226,8 @@ def clauses(cfg: dict, r: dict) -> list:
             break
     if depth != 0 and not any(b[0] == "balanced" for b in bad):
         bad.append(("balanced", f"sys_path entered {depth} more time(s) than exited"))
-    if r["outcome"] not in LEGAL_OUTCOMES and not (r["outcome"] == "FileNotFoundError" and cfg.get("objspec") == "abspath" and not r["executed"]):
+    if r["outcome"] not in LEGAL_OUTCOMES and not (r["outcome"] == "FileNotFoundError" and cfg.get("objspec") == "abspath" and not r["executed"]) \
+            and not (r["outcome"] == "KeyError" and cfg.get("objspec") == "dotted"):
         bad.append(("outcome-class", f"griffe.load ended with {r['outcome']}: {r.get('tb', '')[-300:]}"))
     seen, uniq = set(), []
     for b in bad:
@@ -387,7 +400,7 @@ def selftest_model_bugs(run: Run):
 def sig_of(cfg: dict, clause: str, r: dict) -> dict:
     return {"clause": clause, "mode": mode_of(cfg), "top": cfg["file"]["p"], "stubs": cfg["stubs"] + ("+find" if cfg["findstubs"] else ""),
             "ext": cfg["extstyle"] if cfg["extstyle"] == "none" else cfg["extstyle"] + ":" + cfg["extkind"], "pathmut": cfg.get("pathmut", "none"),
-            "call": cfg.get("objspec", "name") + ("" if cfg.get("submodules", True) else "+nosub"), "outcome": r["outcome"]}
+            "call": cfg.get("entry", "load") + ":" + cfg.get("objspec", "name") + ("" if cfg.get("submodules", True) else "+nosub"), "outcome": r["outcome"]}
 
 
 def judge(run: Run, case: dict, r: dict, variants: list | None) -> tuple:
@@ -561,6 +574,8 @@ def _main(run: Run, tier: str, rnd: random.Random, workdir: str, ext_so):
         if ln["tid"] in acc:
             for e in ln["events"]:
                 name = "StubPass" if (e["ev"] == "ChooseAgent" and e["m"] == "s" and any(x["ev"] == "Submodule" or x["ev"] == "Visit" or x["ev"] == "Inspected" for x in ln["events"][:ln["events"].index(e)])) else e["ev"]
+                if e["ev"] == "LoadRaise" and e.get("exc") == "KeyError":
+                    name = "LoadMissing"
                 seen_ev[name] = seen_ev.get(name, 0) + 1
     seen_ev["LoadMain"] = seen_ev.pop("Load", 0)
     never = [a for a in ACTIONS if not seen_ev.get(a)]
